@@ -367,3 +367,4 @@ def _r10_7(res, P, cfgname):
 LEVEL = LEVEL + ' Also (R10.2b) every Inexact adjustment of the mode-generic rounding functions comes from a call on the mode R, (R10.4) the log2-estimate half test and all bound-returning functions are polarity-correct, (R10.5) half tests compare a remainder with its own divisor.'
 TECHNIQUE = 'finite-domain tabulation of round_fract / round_ratio / rational rounding bodies for all six modes against a definition oracle; call-shape rules; bound-polarity type system; half-test pairing'
 LEVEL = LEVEL + ' Also (R10.6) with_precision rounds with the new context unless the old precision is limited and not larger.'
+LEVEL = LEVEL + ' (R10.7) the tiny-value shortcut: split_at_point_internal is reached from rounding callers only where smaller_than_one() is false, so the digit count of the discarded part is never under-estimated.'
